@@ -27,11 +27,11 @@ CHECKS = {
          "runtime monitor: single-deviation delivery variants vs reference model + failed-call ledger diff + exactly-once"),
  "C05": ("Runtime monitoring: balance/custody/supply model over all (token, holder) pairs stepped with outbound and approved inbound transfers, "
          "trusted-chain changes, holders' burns, minter mints, redelivery of executed transfers and ledger advancement (up to the expiry of every temporary entry) over service-deployed (tree code) and canonical tokens; the "
-         "announcement to the hub is compared with the independent ABI encoder and Keccak; offline conservation checker per token.",
+         "announcement to the hub is compared with the independent ABI encoder and Keccak; offline conservation checker per token; some universes work with 13 tokens; the service itself named as gas payer of a token it holds in custody.",
          "runtime monitor: balance/custody reference model + announcement oracle + offline conservation"),
  "C06": ("Runtime monitoring, finite matrix enumerated completely: 43 administrative entry points (incl. migrate after the ownership moved inside the window) x 5 role-transfer histories x up to 8 principals x roles initially distinct / in one hand; "
          "the authorisation forest the code asks for is recorded and replayed with the principal substituted (or withheld, or recorded for other "
-         "arguments) at a checkpoint; refused calls diffed against the pre-state; roles re-read after 1.3 M ledgers and after every temporary entry has expired; entry points outside the pinned interface are called by a stranger, after which every role must read as before.",
+         "arguments) at a checkpoint; refused calls diffed against the pre-state; roles re-read after 1.3 M ledgers and after every temporary entry has expired; the whole matrix is run a second time with the contract's migration window open; entry points outside the pinned interface are called by a stranger (every role must read as before) and by the holders followed by an ordinary hand-over (owner and operator must then stay with the newcomer).",
          "runtime monitor: recorded-authorisation replay with principal substitution over the full entry-point x principal x history matrix"),
  "C07": ("Runtime monitoring, finite matrix enumerated completely: 16 user-facing entry points x authorisers (named address, counterparty, contract "
          "owner, stranger, nobody, everyone but the named address, named address for other arguments - one variant per argument position), states without "
@@ -118,7 +118,7 @@ manifest = {
     "checks": checks,
     "notes": ("All 18 properties are decided by runtime monitors written for this task (no Miri/ASan: the nightly toolchain cannot build the Soroban dependency tree offline; valgrind memcheck is used for C10). "
               "Two genuine defects were repaired in /repo with 'fix:' commits (ff606be C12, 03dc987 C16); two are recorded in KNOWN_FINDINGS.txt (C04, C11) because their repair would break the unedited suite. "
-              "Sensitivity is documented in DESIGN.md §10: 146 hand mutants, 306 independently written and confirmed seeded changes under seeded/, 19 hand-written and 111 independently written or derived property-preserving changes (benign_seeded/) that must stay silent."),
+              "Sensitivity is documented in DESIGN.md §10: 146 hand mutants, 341 independently written and confirmed seeded changes under seeded/, 19 hand-written and 112 independently written or derived property-preserving changes (benign_seeded/) that must stay silent."),
     "not_applicable": [],
 }
 json.dump(manifest, open(os.path.join(ROOT, "MANIFEST.json"), "w"), indent=1)
